@@ -75,6 +75,12 @@ func c05Scenarios(tier core.Tier) []scenario {
 		// under fault (recv a1, sync, recv b1, recv b2, failK/sync: undo + two replays)
 		{Name: "c05.fault", Universe: "U-3way-honest", Depth: 6 + d, MaxCost: 1 + d/2, Orcs: orcs,
 			Menu: chain.Menu{Recv: true, Sync: true, Play: true, Submit: []string{"tS"}, Mine: 1, Fail: 5, Blocks: flt}},
+		// truncations (side branches reaching above the target) with queries in between
+		{Name: "c05.trunc", Universe: "U-3way-honest", Depth: 6 + d, Orcs: orcs,
+			Menu: chain.Menu{Recv: true, Sync: true, Truncate: true, Query: true, Blocks: []string{"a1", "a2", "a3", "b1", "b2", "d2"}}},
+		// a slide window, restarts and storage faults: the committed / pending copies of the meta
+		{Name: "c05.window", Universe: "U-3way-honest-w1", Depth: 5 + d, MaxCost: 1, Orcs: orcs,
+			Menu: chain.Menu{Recv: true, Sync: true, Play: true, WalkSome: true, Restart: true, Fail: 3, Blocks: []string{"a1", "a2", "a3", "b1", "b2"}}},
 		{Name: "c05.kv", Universe: "U-kv", Depth: 5 + d, Orcs: orcs,
 			Menu: chain.Menu{Recv: true, Sync: true, Play: true, WalkSome: true, Submit: []string{"pW1", "pW2", "pR"}, Mine: 1, Blocks: []string{"k1", "k2", "j2"}}},
 		{Name: "c05.amt", Universe: "U-amt", Depth: 4 + d, MaxCost: 1, Orcs: orcs,
@@ -86,7 +92,11 @@ func c17Scenarios(tier core.Tier) []scenario {
 	d := dd(tier)
 	orcs := func() []chain.Oracle { return []chain.Oracle{&chain.FinalityOracle{}} }
 	var out []scenario
-	for _, w := range []string{"1", "2", "3"} {
+	windows, faultWindows := []string{"1", "2"}, []string{"1"}
+	if tier == core.Thorough {
+		windows, faultWindows = []string{"1", "2", "3"}, []string{"1", "2"}
+	}
+	for _, w := range windows {
 		out = append(out, scenario{Name: "c17.w" + w, Universe: "U-3way-honest-w" + w, Depth: 6 + d, Orcs: orcs,
 			Menu: chain.Menu{Recv: true, Sync: true, WalkAll: true, Play: true, Mine: 1, Restart: true, Blocks: []string{"a1", "a2", "a3", "b1", "b2", "b3", "d2"}}})
 		// the miner's own way back: walk + ledger truncation (truncateForMiner), then a block through PlayForMiner
@@ -98,6 +108,11 @@ func c17Scenarios(tier core.Tier) []scenario {
 	for _, w := range []string{"1", "2"} {
 		out = append(out, scenario{Name: "c17.bad.w" + w, Universe: "U-3way-w" + w, Depth: 5 + d, Orcs: orcs,
 			Menu: chain.Menu{Recv: true, Sync: true, WalkAll: true, Restart: true, Blocks: []string{"a1", "a2", "dup3", "bv2", "bv3", "b1", "b2", "b3"}}})
+	}
+	// storage faults and restarts with a window: what a failed write leaves in the committed meta
+	for _, w := range faultWindows {
+		out = append(out, scenario{Name: "c17.fault.w" + w, Universe: "U-3way-honest-w" + w, Depth: 6 + d, MaxCost: 1, Orcs: orcs,
+			Menu: chain.Menu{Recv: true, Sync: true, Play: true, WalkSome: true, Restart: true, Fail: 3, Blocks: []string{"a1", "a2", "a3", "b1", "b2"}}})
 	}
 	out = append(out, scenario{Name: "c17.w0", Universe: "U-3way-honest", Depth: 6 + d, Orcs: orcs,
 		Menu: chain.Menu{Recv: true, Sync: true, WalkSome: true, Mine: 1, Restart: true, Blocks: []string{"a1", "a2", "a3", "b1", "b2", "b3"}}})
